@@ -155,11 +155,47 @@ def record_structured(seed, rng):
             'out': got.get('out', [[0]]), 'labels': got.get('labels', []), 'slices': got.get('slices', []), 'areas': got.get('areas', [])}
 
 
+def record_threshold_est(seed, rng):
+    """detect_threshold estimating the noise (and possibly the background) itself: the estimates come from the UNMASKED pixels only.
+    The unmasked pixels hold b-d / b+d in equal numbers (mean b, std d exactly, nothing sigma-clipped); the masked pixels hold a second,
+    wider population b2-5d / b2+5d (not clipped either when treated as data, so using them changes both estimates)."""
+    from photutils.segmentation import detect_threshold
+    h, w = rng.randint(2, 8), 2 * rng.randint(1, 4)
+    b, d, ns = rng.randint(-5, 20), rng.randint(1, 4), rng.choice([1, 2, 3, 5])
+    data = np.zeros((h, w)); mask = np.zeros((h, w), bool)
+    cells = [(r, c) for r in range(h) for c in range(w)]
+    rng.shuffle(cells)
+    use_mask = rng.random() < 0.8
+    nmask = 2 * rng.randint(1, max(1, len(cells) // 4)) if use_mask and len(cells) >= 4 else 0
+    b2 = b + rng.choice([-3, 0, 4]) * d
+    for k, (r, c) in enumerate(cells):
+        if k < nmask:
+            mask[r, c] = True; data[r, c] = b2 + (5 * d if k % 2 else -5 * d)
+        else:
+            data[r, c] = b + (d if k % 2 else -d)
+    bgkind = rng.choice(['none', 'scalar', 'map'])
+    bg = [[rng.randint(-5, 20) for _ in range(w)] for _ in range(h)]
+    if bgkind == 'scalar':
+        bg = [[bg[0][0]] * w for _ in range(h)]
+    bga = None if bgkind == 'none' else (float(bg[0][0]) if bgkind == 'scalar' else np.array(bg, float))
+    keep = data.copy()
+    try:
+        out = np.asarray(detect_threshold(data, ns, background=bga, mask=mask if nmask else None))
+        ok = out.shape == (h, w) and bool(np.all(np.abs(out - np.round(out)) < 1e-9)) and np.array_equal(keep, data)
+        outj = [[int(v) for v in row] for row in np.round(out).tolist()] if ok else [[-999999] * w] * h
+    except Exception:  # noqa
+        outj = [[-999999] * w] * h
+    return {'id': seed, 'kind': 'threshold_est', 'bgkind': bgkind, 'bg': bg, 'nsigma': ns, 'data': [[int(v) for v in row] for row in data.tolist()],
+            'mask': [[r, c] for r in range(h) for c in range(w) if mask[r, c]], 'out': outj}
+
+
 def record_case(seed):
     """code -> spec: random larger image (plateaus, ties at the threshold, NaN, +-inf, 2-D threshold, mask)"""
     rng = random.Random(seed)
-    kind = rng.choice(['detect'] * 6 + ['finder', 'threshold'])
+    kind = rng.choice(['detect'] * 6 + ['finder', 'threshold', 'threshold_est'])
     h, w = rng.randint(1, 9), rng.randint(1, 9)
+    if kind == 'threshold_est':
+        return record_threshold_est(seed, rng)
     if kind == 'threshold':
         from photutils.segmentation import detect_threshold
         bg = [[rng.randint(-5, 20) for _ in range(w)] for _ in range(h)]
@@ -226,6 +262,11 @@ def record_case(seed):
         # In the model all values are doubled and the threshold is 2*t - 1 (any number strictly between t - 1/2 and t).
         data = data.astype(np.float32)
         thr = (np.float64(thr_rows[0][0]) - 1e-9) if thr_scalar else (np.array(thr_rows, dtype=np.float64) - 1e-9)
+    if not neartie and not nan and rng.random() < 0.3 and all(0 <= v < 256 for r in rows for v in r):
+        # an unsigned-integer image with an integer threshold: pixels BELOW the threshold must not wrap around to "above"
+        dt = rng.choice([np.uint8, np.uint16, np.int16])
+        data = data.astype(dt)
+        thr = int(thr_rows[0][0]) if thr_scalar else np.array(thr_rows, dtype=rng.choice([dt, np.int64]))
     if kind == 'finder':
         from photutils.segmentation import SourceFinder
         from photutils.utils.exceptions import NoDetectionsWarning
@@ -282,7 +323,7 @@ def run(ctx):
                                                    'has_nan': bool(rec.get('nan')), 'has_mask': bool(rec.get('mask'))}, {'case': rec})
         else:
             ctx.traces += 1
-        if rec['kind'] != 'threshold' and len(rec['labels']) >= 2:
+        if not rec['kind'].startswith('threshold') and len(rec['labels']) >= 2:
             seen.add(json.dumps([rec['data'], rec['thr'], rec['nan'], rec['mask'], rec['conn'], rec['npix']]))
     ctx.evaluations += n; ctx.nontrivial += len(seen)
     ctx.sample({'kind': 'recorded call', **{k: recs[0].get(k) for k in ('kind', 'data', 'thr', 'nan', 'mask', 'conn', 'npix', 'out')}})
@@ -300,7 +341,7 @@ def run(ctx):
         vb = core.validate_batch(ctx, 'Trace_Detect', bad, 'SelfTest:Detect', shards=2)
         ctx.selftest('flipped output pixel / area in accepted detect_sources records', all(not v['ok'] for v in vb.values()))
     ctx.assumptions += ['+/-inf are represented by +/-1000000 in the model (all finite test values are < 10)',
-                        'detect_threshold is only decided for given background and error maps (pixel-wise formula)']
+                        'detect_threshold is decided for given background and error maps (pixel-wise formula) and for estimated noise/background on two-valued scenes where the sigma clipping removes nothing (exact mean/std of the unmasked pixels)']
 
 
 def replay(ctx, rep):
